@@ -124,8 +124,3 @@ func cmdVerify(args []string) {
 	}
 	fmt.Printf("done in %.1fs, %d problems\n", time.Since(t0).Seconds(), bad)
 }
-
-func cmdCheck(args []string) {
-	fmt.Fprintln(os.Stderr, "not implemented yet")
-	os.Exit(2)
-}
